@@ -174,7 +174,8 @@ def model_program(rng):
     return "\n".join(lines), depth, route
 
 
-ROUTES = ["direct", "list.map", "list.each", "list.filter", "sorted", "try", "spawn", "go-chan", "vmcall", "after-error", "after-error"]
+ROUTES = ["direct", "list.map", "list.each", "list.filter", "sorted", "try", "spawn", "go-chan", "vmcall", "after-error", "after-error",
+          "escape-then-fail", "escape-then-fail"]
 
 
 def route_programs(rng):
@@ -188,6 +189,29 @@ def route_programs(rng):
     n = 2 + rng.below(3)
     direct = pre + ["r := []"] + ["r.append(inc())" for _ in range(n)] + ["r.append(get())", "r"]
     route = rng.choice(ROUTES[1:])
+    if route == "escape-then-fail":
+        # closures that ESCAPE from an activation (into a top-level list, a map, an outer variable) which then ends with an
+        # error - raised by the function itself or by something it calls - that is caught further up: the closures keep the
+        # variables of that activation, exactly as when the function returns normally
+        wide = rng.chance(1, 3)
+        locs = "".join("w%d := %d; " % (i, i) for i in range(9)) if wide else ""
+        k = rng.below(3)
+        store = ["keep.append(%s)", 'km["f%d"] = %s', "keep.append(%s)"][k]
+        def put(i, f):
+            return (store % ((i, f) if k == 1 else f))
+        body = "%sz := n * 3; y := n + 1; %s; %s; z = z + 1; %s" % (
+            locs, put(0, "func() { z = z + y; return z }"), put(1, "func() { return [z, y] }"),
+            put(2, "func() { y = y + 1; return func() { return y + z } }"))
+        fail = rng.choice(['error("boom")', "[1][5]", "deeper()", 'error("x%d", n)'])     # (1 / 0 is a Go panic that try does not catch)
+        defs = ["keep := []", "km := {}", 'func deeper() { error("deep") }']
+        get = (lambda i: 'km["f%d"]' % i) if k == 1 else (lambda i: "keep[%d]" % i)
+        calls = ["r.append(%s())" % get(0), "r.append(%s())" % get(1), "r.append(%s()())" % get(2), "r.append(%s())" % get(0), "r.append(%s())" % get(1)]
+        n = len(calls)
+        direct = defs + ["func mk(n) { %s; return 0 }" % body, "mk(%d)" % (2 + rng.below(5))] + ["r := []"] + calls + ["r"]
+        arg = direct[4][3:-1]
+        routed = defs + ["func mk(n) { %s; %s; return 0 }" % (body, fail),
+                         rng.choice(["try(func() { return mk(%s) }, 0)" % arg, "try(func() { mk(%s) }, 0)" % arg])] + ["r := []"] + calls + ["r"]
+        return "\n".join(direct), "\n".join(routed), route, 1, n
     if route == "list.map":
         routed = pre + ["r := list(range(%d)).map(func(x) { return inc() })" % n if False else
                         "r := [%s].map(func(x) { return inc() })" % ", ".join("0" for _ in range(n)), "r.append(get())", "r"]
@@ -233,3 +257,24 @@ def route_programs(rng):
     else:
         routed = pre + ["nil"]
     return "\n".join(direct), "\n".join(routed), route, depth, n
+
+
+def incremental_program(rng):
+    """Pieces for ONE compiler and ONE VM (the REPL protocol): functions nested 1-4 deep that read and write TOP-LEVEL variables,
+    called in an early piece (their code is loaded then) and again after later pieces have changed those variables from top-level
+    code, from a depth-1 function, or by declaring more variables; evaluated piece by piece the program must end as when it is
+    evaluated as a whole.  Returns the list of pieces."""
+    depth = 1 + rng.below(4)
+    inner = rng.choice(["g = g + 1; return g", "return g + h", "h = h + g; return h", "g, h = [h, g]; return g * 100 + h"])
+    fn = "func() { %s }" % inner
+    for _ in range(depth - 1):
+        fn = "func() { return %s }" % fn
+    pieces = ["g := %d" % (1 + rng.below(5)), "h := %d" % (10 + rng.below(5)), "func outer() { return %s }" % fn,
+              "f := outer()" + "()" * (depth - 1), "func bump() { g = g + 7 }", "r := []"]
+    steps = ["r.append(f())"]
+    for _ in range(2 + rng.below(4)):
+        steps.append(rng.choice(["g = g * 2", "h = h + 3", "bump()", "k%d := g + h" % len(steps), "r.append(f())", "r.append(f())",
+                                 "f2 := outer()" + "()" * (depth - 1), "r.append([g, h])"]))
+    steps += ["r.append(f())", "r.append([g, h])", "r"]
+    return pieces + steps
+
